@@ -215,8 +215,10 @@ func (e *Engine) inputValue(st *State, t types.Type, name string) *Term {
 
 // inputObjFacts: objects reachable from inputs are neither package-level
 // variables nor objects allocated by package initialisation.
-func (e *Engine) inputObjFacts(t types.Type, v *Term) {
-	lowOK := func(obj *Term) *Term { return Or(Eq(obj, IntT(0)), Ge(obj, e.inputLow)) }
+func (e *Engine) inputObjFacts(t types.Type, v *Term) { e.inputObjFactsIf(True, t, v) }
+
+func (e *Engine) inputObjFactsIf(g *Term, t types.Type, v *Term) {
+	lowOK := func(obj *Term) *Term { return Implies(g, Or(Eq(obj, IntT(0)), Ge(obj, e.inputLow))) }
 	switch e.tr.sortOf(t) {
 	case LocS:
 		e.axiom(lowOK(LocObj(v)))
@@ -229,7 +231,7 @@ func (e *Engine) inputObjFacts(t types.Type, v *Term) {
 	case IfaceS:
 		// interface-typed inputs have a dynamic type outside the program (a
 		// caller-supplied writer, reader, error ...), or are nil
-		e.axiom(Or(Eq(v, NilIface), Eq(IfaceTag(v), IntT(-1))))
+		e.axiom(Implies(g, Or(Eq(v, NilIface), Eq(IfaceTag(v), IntT(-1)))))
 	}
 }
 
